@@ -22,6 +22,7 @@ import numpy as np
 from hypothesis import strategies as st
 
 from ..core import Given, Ctx, Violation, jsonable
+from ..findings import is_open
 
 from raysect.core.math.random import seed as rs_seed
 from raysect.core.math import triangulate2d            # used for NT labelling only, never for the oracle
@@ -30,7 +31,8 @@ from cherab.tools.inversions import AxisymmetricVoxel, ToroidalVoxelGrid
 
 ID = "C17"
 RULE = ("Polygons are built by construction in a local frame and then scaled (1e-3..1e2) and placed at a radial offset "
-        "(touching the axis, or 0.01..1e4 sizes away; <=1e2 for the sampling sub-check) and a height offset of either sign: "
+        "(touching the axis, or 0.01..1e4 sizes away; <=1e2 for the sampling and grid sub-checks while finding "
+        "C17-oob-triangle-index is open, <=1e5 afterwards) and a height offset of either sign: "
         "triangles, axis-aligned rectangles, convex polygons (affine images of polygons inscribed in a circle), star-shaped "
         "polygons with 4-10 vertices and radii 0.15..1 (mostly concave) and rotated/sheared/mirrored non-star templates "
         "(L, U, comb, spiral, dart, bolt; 4-12 vertices); primitive_type csg or mesh (mesh only when it gives 3..32 toroidal "
@@ -75,6 +77,12 @@ TOLERANCES = {
 REQUIRED_LABELS = ["geometry:kind=tri", "geometry:kind=rect", "geometry:kind=convex", "geometry:kind=star",
                    "geometry:kind=tmpl", "geometry:prim=mesh", "geometry:prim=csg", "geometry:concave",
                    "geometry:on-axis", "sampling:nt", "sampling:kind=tmpl", "sampling:reversed", "grid:cells>=2"]
+
+# open finding C17-oob-triangle-index: emissivity_from_function reads one past its triangle table with probability
+# ~ (r z / area) * 1e-16 per sample.  While it is open the sampling / grid sub-checks keep cells within 1e2 sizes of the
+# origin (<= 1e-11 per sample); once fixed, offsets up to 1e5 sizes are sampled as well.
+OOB_OPEN = is_open("C17-oob-triangle-index")
+SAMPLING_GMAX = 2 if OOB_OPEN else 5
 
 U = 2.0 ** -53
 TWO_PI = 2.0 * math.pi
@@ -378,7 +386,7 @@ _coef = st.one_of(st.floats(-10.0, 10.0).map(lambda x: 0.0 if abs(x) < 1e-6 else
 
 def sampling_strategy():
     return st.fixed_dictionaries({
-        "poly": poly_strategy(2),
+        "poly": poly_strategy(SAMPLING_GMAX),
         "rot": st.integers(0, 11),
         "rev": st.booleans(),
         "seed": st.integers(1, 2 ** 31 - 1),
@@ -394,7 +402,7 @@ def grid_strategy(draw):
     nr = draw(st.integers(1, 12))
     nz = draw(st.integers(1, 12 // nr))
     s = 10.0 ** draw(st.floats(-2.0, 1.0))
-    g, h = _offsets(2)
+    g, h = _offsets(SAMPLING_GMAX)
     r0 = draw(g) * s
     z0 = draw(h) * s
     wr = draw(st.lists(st.floats(0.2, 1.0), min_size=nr, max_size=nr))
@@ -733,6 +741,8 @@ def run_sampling(case, ctx):
         ctx.label("reversed")
     if rot:
         ctx.label("rotated")
+    if OOB_OPEN:
+        ctx.label("excluded_known:offset>1e2-sizes")
     ctx.label("N=%d" % N)
     _stage(ctx, "construct")
     with ctx.cut("construct"):
@@ -907,7 +917,7 @@ def run_grid(case, ctx):
 
 
 SUBCHECKS = {
-    "geometry": Given(geometry_strategy, run_geometry, quick=2400, thorough=100000),
-    "sampling": Given(sampling_strategy, isolated("sampling", run_sampling), quick=2400, thorough=80000),
-    "grid": Given(grid_strategy, isolated("grid", run_grid), quick=1600, thorough=40000),
+    "geometry": Given(geometry_strategy, run_geometry, quick=2400, thorough=40000),
+    "sampling": Given(sampling_strategy, isolated("sampling", run_sampling), quick=2400, thorough=36000),
+    "grid": Given(grid_strategy, isolated("grid", run_grid), quick=1600, thorough=20000),
 }
